@@ -103,6 +103,8 @@ func (m Mutation) Apply(src string) (string, int) {
 	switch m.Kind {
 	case "none", "":
 		return src, -1
+	case "text":
+		return m.Text, len(m.Text)
 	case "prefix":
 		if m.A > len(src) {
 			return src, len(src)
